@@ -30,6 +30,7 @@ RULE = ("One evaluation = one seeded execution in which the peer's hint list "
 RULE += (' Dilation half: also hint lists around a forced reconnect, and (1/4 of runs) mutually unreachable peers with hint lists spread over gaps of 0..30 simulated seconds.')
 RULE += (" In half of the Dilation runs one side does not listen at all, so (re)connecting depends on the other side's hints alone.")
 RULE += (' late_relay runs also require every list naming the (refusing) relay to lead to a dial by its receiver.')
+RULE += (' A third configuration runs the Dilation half on a server that does not keep the order of stored messages.')
 LEVEL_TEXT = ("Seeded exploration over generated inputs. Oracle: no exception "
               "escapes add_connection_hints()/connect() (transit) or "
               "received_dilation_message (dilation); the wormhole/transfer "
